@@ -6,6 +6,7 @@ package main
 
 import (
 	"bufio"
+	"bytes"
 	"encoding/json"
 	"fmt"
 	"os"
@@ -152,22 +153,16 @@ func runCase(c CaseIn) CaseOut {
 		hs.close()
 		out.Lines, out.FaultAt = hs.transcript()
 	} else {
-		// the simulator is a child of the expect library and reads asynchronously:
-		// wait until its transcript is stable
+		// the simulator is a child of the expect library and reads asynchronously: tell it
+		// that the program under test is done and wait for its end mark
 		tp := filepath.Join(simDir, "transcript")
-		last, stable := int64(-1), 0
-		for i := 0; i < 40 && stable < 2; i++ {
-			time.Sleep(15 * time.Millisecond)
-			var sz int64
-			if st, err := os.Stat(tp); err == nil {
-				sz = st.Size()
+		time.Sleep(10 * time.Millisecond) // goexpect writes to the pty from its own goroutine
+		os.WriteFile(filepath.Join(simDir, "stop"), nil, 0644)
+		for i := 0; i < 1000; i++ {
+			if b, err := os.ReadFile(tp); err == nil && (bytes.HasSuffix(b, []byte("\n")) && bytes.Contains(b, []byte("\nX ")) || bytes.HasPrefix(b, []byte("X "))) {
+				break
 			}
-			if sz == last {
-				stable++
-			} else {
-				stable = 0
-			}
-			last = sz
+			time.Sleep(5 * time.Millisecond)
 		}
 		out.Lines, out.FaultAt = readTranscript(tp)
 	}
